@@ -71,7 +71,7 @@ pub fn run_c04(cx: &Ctx) -> i32 {
     // common-syntax contexts around a word boundary (the only way common syntax reaches the VM):
     // the filler is delegated as one piece next to the boundary
     let quick = cx.quick();
-    let common_ctx = move |c: &space::Context| if quick { ["\\b□", "□\\b", "\\B□\\B"].contains(&c.name) } else { ["□", "x□", "□x", "\\b□", "□\\b", "\\B□\\B"].contains(&c.name) };
+    let common_ctx = move |c: &space::Context| if quick { ["\\b□", "□\\b", "\\B□\\B", "(\\b□)$", "(?:\\b(?:□|□'))(?m:$)"].contains(&c.name) } else { ["□", "x□", "□x", "\\b□", "□\\b", "\\B□\\B", "(\\b□)$", "^(\\b□)$", "(?:\\b(?:□|□'))(?m:$)", "(\\b□)□'"].contains(&c.name) };
     let space = Space::new().exh("common", g, k).list("flag-inside-group", scoped).ctxfill(3, 1, &common_ctx);
     let prefixes: Vec<&str> = vec!["", "(?i)", "(?m)", "(?s)", "(?x)", "(?U)"];
     let alphabet = vec!['a', 'A', 'b', 'é', '\n'];
